@@ -191,7 +191,7 @@ class NonlinearCall(Unit):
 
 class ObjectiveCall(Unit):
     name = "problem.objective_call"
-    props = ("C05", "C06", "C11")
+    props = ("C05", "C06", "C11", "C02")
     fmodel = "ORDER"
     functions = [("cobyqa.problem", "ObjectiveFunction.__call__")]
 
@@ -230,10 +230,11 @@ class ObjectiveCall(Unit):
             c.oblige("C05.objective_call.zero_objective", z3.BoolVal(isinstance(res, float) and res == 0.0), props=["C05", "C06"])
             return
         c.oblige("C06.objective_call.exactly_one_user_call", z3.BoolVal(len(calls) == 1 and calls[0][1] == args), props=["C06", "C05"])
-        c.oblige("C11.objective_call.user_gets_a_copy", z3.BoolVal(len(calls) == 1 and getattr(calls[0][0], "src", None) is x), props=["C11", "C06", "C20"],
-                 note="the array handed to the user function must be a fresh copy of the evaluated point")
+        c.oblige("C11.objective_call.user_gets_a_copy", z3.BoolVal(len(calls) == 1 and getattr(calls[0][0], "src", None) is x), props=["C11", "C06", "C20", "C02"],
+                 note="the array handed to the user function must be a fresh copy of the evaluated point (Problem.__call__ hands the same "
+                      "array to the constraint functions next: their values, hence maxcv, would be those of a point the objective altered)")
         c.oblige("C05.objective_call.counter", it(of._n_eval) == n0.t + 1, props=["C05"])
-        c.oblige("C02.objective_call.value_returned_raw", feq(SF.lift(res), fv), props=["C05", "C06"])
+        c.oblige("C02.objective_call.value_returned_raw", feq(SF.lift(res), fv), props=["C05", "C06", "C02"])
 
 
 UNITS = [NonlinearCall(), ObjectiveCall()]
